@@ -166,3 +166,53 @@ PROPS["C07"] = dict(
 TEXT["C07"] = _t("sim+harness", "deterministic simulation: seeded scheduler owning every lock acquisition (and optionally every FS call) of the unmodified DB code incl. its background worker; histories checked with porcupine",
                  "Seeded search over interleavings of concurrent clients, compaction, sync, backup, scans and the background worker; each recorded history must linearize against a per-key register-with-delete model; Illegal = violation, Unknown = counted as inconclusive.",
                  "Schedules sampled; scheduling points = lock operations (+ FS calls in half the runs). porcupine v1.3.0 trusted. Data races proper are C10's REAL-mode clause.", "DESIGN.md 2.2, 4/C07")
+
+REAL_SCHED = REAL_SEQ + ["the database's own background worker goroutine", "sync.WaitGroup, context, channels, select (real, inside a testing/synctest bubble)"]
+PROPS["C05"] = dict(
+    level="exploration",
+    runs=dict(quick=4000, thorough=80000), budget_s=dict(quick=170, thorough=1700), gomaxprocs=4,
+    rule="3 of 4 runs: a seeded concurrent run - preload by one task, then 1-2 writers with disjoint key sets, a compactor task (or the background worker), optionally a reader - in which the seeded scheduler decides who gets DB.mu each time compaction releases it (between any two records); "
+         "history checked with porcupine + Count bounds + scan truthfulness, and up to 40 process-crash images taken at journal positions inside/right after Compact (incl. torn writes) are recovered and compared with the exact per-key oracle (single writer per key: last acked value or the write in flight). "
+         "1 of 4 runs: a sequential compaction-heavy history with every crash point inside/after Compact swept as in C03. evaluations = crash images checked (+1 per run); distinct_nontrivial = distinct schedule digests + distinct crash images",
+    real=REAL_SCHED, stub=STUB_SCHED, assumptions=SCHED_ASSUME + CRASH_ASSUME,
+    must_reach=dict(quick=["segment_removed", "writer_ran_during_compaction", "pcrash_in_compaction_window", "torn_write", "context_switches"], thorough=["writer_ran_during_compaction"]),
+)
+PROPS["C10"] = dict(
+    level="exploration",
+    runs=dict(quick=6000, thorough=150000), budget_s=dict(quick=170, thorough=1700), gomaxprocs=4,
+    rule="one evaluation = one seeded concurrent run of 3-6 tasks calling every public method (Put, Delete, Get, GetAppend, Has, Count, Items/Next, Sync, Compact, Backup, FileSize, Metrics, Close - Close by a random task at a random position, sometimes twice), background worker on in half the runs; "
+         "oracles: no panic, scheduler deadlock detector, no goroutine left when the bubble ends, no open handle / lock after Close, no write acknowledged after Close returned, and the directory reopened cleanly and with forced recovery holds per key the last acknowledged write or a failed write of the Close race; "
+         "distinct_nontrivial = distinct schedule digests",
+    real=REAL_SCHED, stub=STUB_SCHED,
+    assumptions=SCHED_ASSUME + ["the data-race clause is decided by the REAL-mode part (race detector on real goroutines), whose schedules are not controlled"],
+    must_reach=dict(quick=["close_raced", "write_failed_in_close_race", "write_started_after_close", "tick", "context_switches"], thorough=["close_raced"]),
+)
+PROPS["C11"] = dict(
+    level="exploration",
+    runs=dict(quick=5000, thorough=100000), budget_s=dict(quick=170, thorough=1700), gomaxprocs=4,
+    rule="3 of 4 runs: scanner tasks calling Next one item at a time, interleaved by the seeded scheduler with 1-3 writers (Put/Delete on 8-90 keys aimed at one bucket chain, so the index splits and slots shift during the scan) and compaction; each returned pair must carry a value put for that key before the Next returned, "
+         "each key unchanged for the whole scan must appear, the final quiescent scan must be exact. 1 of 4 runs: sequential histories with exact scans (multiset == model, ErrIterationDone afterwards). distinct_nontrivial = distinct schedule digests / states",
+    real=REAL_SCHED, stub=STUB_SCHED, assumptions=SCHED_ASSUME,
+    must_reach=dict(quick=["scans", "scan_overlapped_writes", "scan_run_with_splits", "index_split", "overflow_bucket_allocated"], thorough=["scan_run_with_splits"]),
+)
+PROPS["C12"] = dict(
+    level="exploration",
+    runs=dict(quick=6000, thorough=120000), budget_s=dict(quick=170, thorough=1700), gomaxprocs=4,
+    rule="one evaluation = one seeded concurrent run: one writer (totally ordered log), a Backup task starting at a scheduler-chosen time, optionally a compactor / the background worker; short reads make the copy loop many scheduling points; "
+         "the backup directory is opened as a database and must equal the model after the first j writer operations for some j between #acked-before-call and #issued-before-return; the backup task must not mutate the source; source history linearizable; "
+         "distinct_nontrivial = distinct schedule digests",
+    real=REAL_SCHED, stub=STUB_SCHED, assumptions=SCHED_ASSUME,
+    must_reach=dict(quick=["writes_during_backup", "rollover_during_backup", "short_read"], thorough=["rollover_during_backup"]),
+)
+TEXT["C05"] = _t("sim+harness", "deterministic simulation with fault injection: seeded scheduler places writers in every lock-release window of compaction; crash images from the journal inside Compact; porcupine + exact per-key crash oracle",
+                 "Seeded search over interleavings of writers with compaction's per-record critical sections, plus process-crash images inside and after Compact (concurrent and sequential), recovered by the real code.",
+                 "Schedules and crash points sampled. Single writer per key makes the crash oracle exact.", "DESIGN.md 4/C05")
+TEXT["C10"] = _t("sim+harness", "deterministic simulation: all public methods incl. Close from several tasks under the seeded scheduler; deadlock detector, panic capture, end-of-bubble leak check, post-Close directory oracle",
+                 "Seeded search over interleavings of every public method with Close and the background worker; decides the panic / deadlock / leaked-goroutine / Close-race clauses. The data-race clause is decided separately by the race detector on real goroutines.",
+                 "Schedules sampled at lock/FS-call granularity. Race detector is blind under the baton scheduler, hence the separate REAL-mode part (DESIGN.md 2.8).", "DESIGN.md 4/C10")
+TEXT["C11"] = _t("sim+harness", "deterministic simulation: scans interleaved item by item with writers, splits and compaction by the seeded scheduler; write-log oracle for truthfulness and completeness",
+                 "Seeded search over interleavings of Items scans with Put/Delete aimed at the split bucket and at overflow chains, and Compact; plus exact sequential scans.",
+                 "Schedules sampled.", "DESIGN.md 4/C11")
+TEXT["C12"] = _t("sim+harness", "deterministic simulation: Backup task vs one writer and compaction under the seeded scheduler, short-read fault personality; opened backup compared with prefixes of the writer's log",
+                 "Seeded search over interleavings of one Backup with concurrent writes that roll the log over and with compaction; the backup must be a prefix-consistent point-in-time copy and must not touch the source.",
+                 "Schedules sampled.", "DESIGN.md 4/C12")
